@@ -1,7 +1,7 @@
 (* C12 — property theorems only.  Each is closed by [exact <lemma>] and followed by
    Print Assumptions; the statements are pinned here so they cannot be quietly weakened. *)
 From FB Require Import C12.Model C12.ModelForest C12.TheoryTree C12.TheoryOrd C12.TheoryDet C12.TheoryMembers C12.TheoryPlace C12.TheoryTok
-  C12.TheoryLines C12.TheoryRead C12.TheoryRT C12.TheoryFuel C12.TheoryExact C12.TheoryDir C12.Theory.
+  C12.TheoryLines C12.TheoryRead C12.TheoryRT C12.TheoryFuel C12.TheoryExact C12.TheoryDir C12.Theory C12.ModelBytes C12.TheoryBytes.
 From Coq Require Import Permutation Sorted.
 
 (* Th 1: writing a mapping set that satisfies the (decidable) hypotheses as one Enigma stream and
@@ -328,3 +328,31 @@ Print Assumptions C12_read_path_spec.
 Theorem C12_examples2 : nonvacuous2.
 Proof. exact nonvacuous2_holds. Qed.
 Print Assumptions C12_examples2.
+
+(* ------------------------------------------------------------------------------------------ *)
+(* Round 7: the byte level.  The writers hand UTF-8 bytes to their `Write` (utf8_encode, compared with the real
+   output byte for byte by the streams `utf8` / `write-one-bytes`), the reader decodes bytes strictly (utf8_decode) *)
+
+(* the byte reader on the UTF-8 encoding of ANY text of scalar values is the text reader: the decoder inverts the encoder *)
+Theorem C12_read_bytes_encode : forall acc text, forallb is_usv text = true ->
+  read_bytes acc (utf8_encode text) = read_into acc text.
+Proof. exact read_bytes_encode. Qed.
+Print Assumptions C12_read_bytes_encode.
+
+(* the decoder is strict: whatever it accepts is THE encoding of a string of Unicode scalar values (no over-long form,
+   no surrogate, nothing above U+10FFFF) — two different byte strings never decode to one text *)
+Theorem C12_utf8_decode_strict : forall f bs s, utf8_decode f bs = Some s -> bs = utf8_encode s /\ forallb is_usv s = true.
+Proof. exact decode_sound. Qed.
+Print Assumptions C12_utf8_decode_strict.
+
+(* Th 1 on bytes: whatever bytes write_all hands to its writer, read_into on those bytes gives the set back *)
+Theorem C12_read_write_all_bytes : forall M bs, enigma_okb M = true -> write_all_bytes M = Ok bs ->
+  exists back, read_bytes [] bs = Ok back /\ classes_sim back (enigma_norm M).
+Proof. exact read_write_all_bytes. Qed.
+Print Assumptions C12_read_write_all_bytes.
+
+(* non-vacuity: 1-, 2-, 3-, 4-byte characters and every boundary encode to the known bytes and come back; a class with
+   such names and comment goes through the bytes (computed); a surrogate has no bytes *)
+Theorem C12_examples_bytes : nonvacuous_bytes.
+Proof. exact nonvacuous_bytes_holds. Qed.
+Print Assumptions C12_examples_bytes.
